@@ -43,6 +43,9 @@ NODE = "cartgraph/node.py"
 G = "cartgraph/graph.py"
 I = "intertest_setup.py"
 MUTANTS = [
+    ("one-worker-empty-aborts-all", "cartgraph/graph.py", "            except param.EmptyCartesianProduct as error:\n                # a worker incompatible with the selection has no tests of its own\n                logging.warning(f\"No tests could be parsed for {worker.id}: {error}\")\n                empty_error = error\n                continue",
+     "            except param.EmptyCartesianProduct as error:\n                raise", "6e"),
+    ("empty-selection-accepted", "cartgraph/graph.py", "        if empty_error is not None and len(graph.nodes) == 0:\n            raise empty_error\n", "", "6e"),
     ("required-dependency-skipped", "cartgraph/graph.py", "                if test_node.params.get(\"require_existence\", \"no\") == \"yes\":\n                    raise\n", "", "7e"),
     ("all-lookup-errors-swallowed", "cartgraph/graph.py", "            test_nets = get_nets + parse_nets\n        except ValueError:", "            test_nets = get_nets + parse_nets\n        except Exception:", "7v"),
     ("only-reused-nets-expanded", "cartgraph/graph.py", "            test_nets = get_nets + parse_nets\n", "            test_nets = get_nets or parse_nets\n", "7n"),
